@@ -201,13 +201,73 @@ def recursion_obligations(ctx, scope):
                             ats = lin_atoms(fct[1])
                             if ats and all(a[0] == "param" and (an.vtype.get(a) or {}).get("k") == "uint" for a in ats):
                                 bounded = True
-        if bounded:
+        zero = _zero_weight_cycle(ctx, comp) if bounded else None
+        if bounded and zero:
+            out.append(simple_ob("S-RECURSION", fn, "cycle", "+".join(names), fn.sp, VIOLATION,
+                                 "the depth counter does not grow around the call cycle %s: that kind of nesting is not limited "
+                                 "(stack exhaustion aborts)" % " -> ".join(F.nice_of(p).split("::")[-1] for p in zero)))
+        elif bounded:
             out.append(simple_ob("S-RECURSION", fn, "cycle", "+".join(names), fn.sp, PROVED,
-                                 "recursive call guarded by a depth counter comparison"))
+                                 "recursive call guarded by a depth counter comparison; the counter grows by at least one around every call cycle"))
         else:
             out.append(simple_ob("S-RECURSION", fn, "cycle", "+".join(names), fn.sp, VIOLATION,
                                  "recursion depth is controlled by input nesting with no depth limit (stack exhaustion aborts)"))
     return out
+
+
+def _zero_weight_cycle(ctx, comp):
+    """call edges inside the recursive component, weighted by how much the callee's depth argument exceeds the caller's
+    depth parameter; returns a cycle of edges none of which provably increases the counter, or None"""
+    F, E = ctx.F, ctx.E
+    comp = set(comp)
+
+    def uint_params(f):
+        an = E.an(f)
+        return [("param", i + 1) for i in range(len(f.inputs)) if (an.vtype.get(("param", i + 1)) or {}).get("k") == "uint"]
+    weak = {p: set() for p in comp}      # edges without a provable increase
+    for p in comp:
+        f = F.fns[p]
+        an = E.an(f)
+        P = E.prover(f)
+        mine = uint_params(f)
+        for b, info in an.term.items():
+            if info["kind"] != "call" or info["callee"] not in comp:
+                continue
+            g = F.fns[info["callee"]]
+            theirs = uint_params(g)
+            inc = False
+            for tp in theirs:
+                a = info["args"][tp[1] - 1]
+                la = P.lin(a)
+                for mp in mine:
+                    d = lin_add(la, P.lin(mp), -1)
+                    if d[1] == () and d[0] >= 1:
+                        inc = True
+            if not inc:
+                weak[p].add(info["callee"])
+    # cycle search in the weak graph
+    color = {}
+    stack = []
+
+    def dfs(v):
+        color[v] = 1
+        stack.append(v)
+        for w in sorted(weak[v]):
+            if color.get(w) == 1:
+                return stack[stack.index(w):] + [w]
+            if w not in color:
+                r = dfs(w)
+                if r:
+                    return r
+        stack.pop()
+        color[v] = 2
+        return None
+    for v in sorted(comp):
+        if v not in color:
+            r = dfs(v)
+            if r:
+                return r
+    return None
 
 
 def consumed_obligations(ctx):
